@@ -44,6 +44,14 @@ structure Ag where
   alive : Bool
   deriving DecidableEq, Repr
 
+/-- a send-only client (`AttachClient::OneWay`, attached on behalf of an agent that sends commands) -/
+structure Ow where
+  id : Nat
+  node : Str
+  lane : Str
+  alive : Bool
+  deriving DecidableEq, Repr
+
 abbrev Subs := List (Str × List (Str × List Nat))
 
 structure St where
@@ -52,6 +60,7 @@ structure St where
   routes : List (Str × Nat) := []
   dls : List Dl := []
   agents : List Ag := []
+  ows : List Ow := []
   running : Bool := true
   counter : Nat := 0
   deriving Repr
@@ -59,8 +68,22 @@ structure St where
 def init : St := {}
 
 /-- A source of outgoing messages / a receiver of incoming ones. -/
-inductive Src | agent (i : Nat) | dl (id : Nat)
+inductive Src | agent (i : Nat) | dl (id : Nat) | ow (id : Nat)
   deriving DecidableEq, Repr
+
+/-- `OutgoingKind`: which `MultiReader` of `OutgoingTask` a registered byte channel is read by, hence with which
+decoder: `Client` → `clients` (`RawRequestMessageDecoder`, frames become `@link/@sync/@unlink/@command`),
+`Server` → `agents` (`RawResponseMessageDecoder`, frames become `@linked/@synced/@unlinked/@event`). -/
+inductive OutKind | client | server
+  deriving DecidableEq, Repr
+
+/-- the kind each sort of source is registered with: `registration_task` registers the channel of a downlink
+(`AttachDownlink`) and of a send-only client (`OneWay`) as `Client`; `connect_agent_route` registers an agent's
+channel as `Server` -/
+def regKind : Src → OutKind
+  | .agent _ => .server
+  | .dl _ => .client
+  | .ow _ => .client
 
 /-- What the environment observes in one operation. -/
 inductive Ev
@@ -79,6 +102,7 @@ inductive Ev
 inductive Op
   | agents (nodes : List Str)
   | attach (id : Nat) (node lane : Str)
+  | attachOne (id : Nat) (node lane : Str)
   | input (frame : Str)
   | send (s : Src) (m : Msg)
   | burst (srcs : List Src)
@@ -113,6 +137,8 @@ def subsRetain (s : Subs) (node lane : Str) (keep : List Nat) : Subs :=
 def dlAlive (st : St) (id : Nat) : Bool := st.dls.any fun d => d.id == id && d.alive
 def agAlive (st : St) (i : Nat) : Bool := match st.agents[i]? with | some a => a.alive | none => false
 
+def owAlive (st : St) (id : Nat) : Bool := st.ows.any fun o => o.id == id && o.alive
+def killOw (os : List Ow) (id : Nat) : List Ow := os.map fun o => if o.id = id then { o with alive := false } else o
 def killDl (ds : List Dl) (id : Nat) : List Dl := ds.map fun d => if d.id = id then { d with alive := false } else d
 def killAg : List Ag → Nat → List Ag
   | [], _ => []
@@ -157,7 +183,8 @@ def requestBody (k : Kind) (body : Str) : Str := if k = .command then body else 
 def stopAll (st : St) (extra : List Ev) : St × List Ev :=
   ({ st with running := false, subs := [], routes := [],
              dls := st.dls.map (fun d => { d with alive := false }),
-             agents := st.agents.map (fun a => { a with alive := false }) },
+             agents := st.agents.map (fun a => { a with alive := false }),
+             ows := st.ows.map (fun o => { o with alive := false }) },
    endEvents st ++ extra)
 
 /-- request for an agent: `agent_routes.get_mut(node)` → `writer.send`, else `connect_agent_route` -/
@@ -206,17 +233,25 @@ def stepInput (st : St) (frame : Str) : St × List Ev :=
 def srcAlive (st : St) : Src → Bool
   | .agent i => agAlive st i
   | .dl id => dlAlive st id
+  | .ow id => owAlive st id
+
+/-- the reader a channel is registered with decodes request frames (`Client`) or notification frames (`Server`);
+a frame of the other sort is a decode error and is dropped by `OutgoingTask::run` ("Connection from … failed") -/
+def readerAccepts : OutKind → Msg → Bool
+  | .client, m => isRequest m.kind
+  | .server, m => !isRequest m.kind
 
 def burstMsg (st : St) (s : Src) (k : Nat) : Option Msg :=
   match s with
   | .dl id => (st.dls.find? fun d => d.id == id).map fun d => ⟨.command, d.node, d.lane, ('m' :: (toString k).toList)⟩
   | .agent i => (st.agents[i]?).map fun a => ⟨.event, a.node, ['l'], ('m' :: (toString k).toList)⟩
+  | .ow id => (st.ows.find? fun o => o.id == id).map fun o => ⟨.command, o.node, o.lane, ('m' :: (toString k).toList)⟩
 
 def burstEvents (st : St) : List Src → Nat → List Ev
   | [], _ => []
   | s :: rest, k =>
     (match srcAlive st s, burstMsg st s k with
-     | true, some m => [Ev.peerFrom s (encode m)]
+     | true, some m => if readerAccepts (regKind s) m then [Ev.peerFrom s (encode m)] else []
      | _, _ => []) ++ burstEvents st rest (k + 1)
 
 def step (st : St) (op : Op) : St × List Ev :=
@@ -226,13 +261,18 @@ def step (st : St) (op : Op) : St × List Ev :=
     if st.running then
       ({ st with subs := subsPush st.subs node lane id, dls := st.dls ++ [⟨id, node, lane, true⟩] }, [])
     else (st, [])
+  | .attachOne id node lane =>
+    -- `AttachClient::OneWay`: only the outgoing half is registered (`RegisterOutgoing { kind: Client, .. }`)
+    if st.running then ({ st with ows := st.ows ++ [⟨id, node, lane, true⟩] }, []) else (st, [])
   | .input frame => if st.running then stepInput st frame else (st, [])
-  | .send s m => if st.running && srcAlive st s then (st, [.peer (encode m)]) else (st, [])
+  | .send s m =>
+    if st.running && srcAlive st s && readerAccepts (regKind s) m then (st, [.peer (encode m)]) else (st, [])
   | .burst srcs =>
     ({ st with counter := st.counter + srcs.length },
      if st.running then burstEvents st srcs st.counter else [])
   | .detach (.dl id) => ({ st with dls := killDl st.dls id }, [])
   | .detach (.agent i) => ({ st with agents := killAg st.agents i }, [])
+  | .detach (.ow id) => ({ st with ows := killOw st.ows id }, [])
   | .stop => if st.running then stopAll st [.peerClose "goingaway", .task "done"] else (st, [])
 
 def run (st : St) (ops : List Op) : St := ops.foldl (fun s op => (step s op).1) st
@@ -242,11 +282,13 @@ def run (st : St) (ops : List Op) : St := ops.foldl (fun s op => (step s op).1) 
 def Src.render : Src → String
   | .agent i => s!"a{i}"
   | .dl id => s!"d{id}"
+  | .ow id => s!"o{id}"
 
 def Src.parse (w : String) : Option Src :=
   match w.toList with
   | 'a' :: r => (String.ofList r).toNat?.map .agent
   | 'd' :: r => (String.ofList r).toNat?.map .dl
+  | 'o' :: r => (String.ofList r).toNat?.map .ow
   | _ => none
 
 def optBody (b : Option Str) : String := match b with | some s => hexOfStr s | none => "none"
@@ -274,8 +316,9 @@ def Ev.rank : Ev → Nat × Nat × Nat
   | .peer _ => (3, 0, 0)
   | .peerFrom (.agent i) _ => (3, 0, i)
   | .peerFrom (.dl id) _ => (3, 1, id)
-  | .peerClose _ => (3, 2, 0)
-  | .peerGone => (3, 2, 0)
+  | .peerFrom (.ow id) _ => (3, 2, id)
+  | .peerClose _ => (3, 3, 0)
+  | .peerGone => (3, 3, 0)
   | .task _ => (4, 0, 0)
 
 def rankLe (a b : Nat × Nat × Nat) : Bool :=
@@ -305,6 +348,9 @@ def parseOp (line : String) : Option Op :=
   | ["attach", id, n, l] => do
     let id ← id.toNat?; let n ← strOfHex n; let l ← strOfHex l
     pure (.attach id n l)
+  | ["attach1", id, n, l] => do
+    let id ← id.toNat?; let n ← strOfHex n; let l ← strOfHex l
+    pure (.attachOne id n l)
   | ["in", f] => (strOfHex f).map .input
   | ["send", s, k, n, l, b] => do
     let s ← Src.parse s; let k ← Kind.parse k; let n ← strOfHex n; let l ← strOfHex l; let b ← optHex b
@@ -319,6 +365,7 @@ def sendable (s : Src) (m : Msg) : Bool :=
   match s with
   | .agent _ => !isRequest m.kind
   | .dl _ => isRequest m.kind
+  | .ow _ => isRequest m.kind
 
 def stepLine (st : St) (line : String) : St × String :=
   match parseOp line with
@@ -326,6 +373,8 @@ def stepLine (st : St) (line : String) : St × String :=
   | some (.agents ns) => ((step st (.agents ns)).1, "ok")
   | some (.attach id n l) =>
     if st.running then ((step st (.attach id n l)).1, "ok") else (st, "closed")
+  | some (.attachOne id n l) =>
+    if st.running then ((step st (.attachOne id n l)).1, "ok") else (st, "closed")
   | some (.send s m) =>
     if sendable s m then ((step st (.send s m)).1, renderEvents (step st (.send s m)).2) else (st, "-")
   | some (.input f) =>
